@@ -861,6 +861,9 @@ impl RustCodeGenerator {
                 out.push(c);
             }
         }
+        if out == "Self" {
+            out.push('_');
+        }
         out
     }
 
